@@ -204,10 +204,38 @@ void Polygon::translate(const Vec2 v) {
     for (uint64_t num = point_array.count; num > 0; num--) *p++ += v;
 }
 
+// Scale the offsets of a repetition independently along each axis
+static void scale_repetition(Repetition& repetition, const Vec2 scale_factor) {
+    switch (repetition.type) {
+        case RepetitionType::Rectangular:
+            repetition.spacing *= scale_factor;
+            break;
+        case RepetitionType::Regular:
+            repetition.v1 *= scale_factor;
+            repetition.v2 *= scale_factor;
+            break;
+        case RepetitionType::Explicit:
+            for (uint64_t i = 0; i < repetition.offsets.count; i++)
+                repetition.offsets[i] *= scale_factor;
+            break;
+        case RepetitionType::ExplicitX:
+            for (uint64_t i = 0; i < repetition.coords.count; i++)
+                repetition.coords[i] *= scale_factor.x;
+            break;
+        case RepetitionType::ExplicitY:
+            for (uint64_t i = 0; i < repetition.coords.count; i++)
+                repetition.coords[i] *= scale_factor.y;
+            break;
+        case RepetitionType::None:
+            break;
+    }
+}
+
 void Polygon::scale(const Vec2 scale_factor, const Vec2 center) {
     Vec2* p = point_array.items;
     for (uint64_t num = point_array.count; num > 0; num--, p++)
         *p = (*p - center) * scale_factor + center;
+    scale_repetition(repetition, scale_factor);
 }
 
 void Polygon::mirror(const Vec2 p0, const Vec2 p1) {
@@ -219,6 +247,7 @@ void Polygon::mirror(const Vec2 p0, const Vec2 p1) {
     Vec2* p = point_array.items;
     for (uint64_t num = point_array.count; num > 0; num--, p++)
         *p = v * (*p - p0).inner(r) - *p + p2;
+    repetition.transform(1, true, 2 * v.angle());
 }
 
 void Polygon::rotate(double angle, const Vec2 center) {
@@ -230,6 +259,7 @@ void Polygon::rotate(double angle, const Vec2 center) {
         p->x = q.x * ca - q.y * sa + center.x;
         p->y = q.x * sa + q.y * ca + center.y;
     }
+    repetition.transform(1, false, angle);
 }
 
 void Polygon::transform(double magnification, bool x_reflection, double rotation,
@@ -243,6 +273,7 @@ void Polygon::transform(double magnification, bool x_reflection, double rotation
         p->x = q.x * ca - q.y * sa + origin.x;
         p->y = q.x * sa + q.y * ca + origin.y;
     }
+    repetition.transform(magnification, x_reflection, rotation);
 }
 
 void Polygon::fillet(const Array<double> radii, double tolerance) {
